@@ -28,6 +28,7 @@ import (
 	"github.com/jamf/regatta/replication/snapshot"
 	"github.com/jamf/regatta/storage/table"
 	"github.com/klauspost/compress/snappy"
+	"go.uber.org/zap"
 	"golang.org/x/time/rate"
 	"google.golang.org/grpc"
 	"google.golang.org/grpc/credentials/insecure"
@@ -598,7 +599,8 @@ func readMessages(reader io.Reader) (res readResult) {
 
 type grpcEnv struct {
 	lis    *bufconn.Listener
-	srv    *grpc.Server
+	srv    *regattaserver.RegattaServer // built by regattaserver.NewServer: regatta's default server options apply
+	kv     *recKV
 	conn   *grpc.ClientConn
 	jobs   sync.Map // table name -> *sendJob
 	tables *fakeTables
@@ -673,14 +675,13 @@ func sendRestore(f *os.File, job *sendJob, name string, client pb.Maintenance_Re
 }
 
 func newGrpcEnv() (*grpcEnv, error) {
-	e := &grpcEnv{lis: bufconn.Listen(4 << 20), tables: &fakeTables{got: map[string]readResult{}}}
-	e.srv = grpc.NewServer()
+	e := &grpcEnv{lis: bufconn.Listen(4 << 20), tables: &fakeTables{got: map[string]readResult{}}, kv: newRecKV()}
+	e.srv = regattaserver.NewServer(e.lis, zap.NewNop().Sugar())
 	pb.RegisterSnapshotServer(e.srv, &snapService{env: e})
 	pb.RegisterMaintenanceServer(e.srv, &regattaserver.BackupServer{Tables: e.tables, AuthFunc: func(ctx context.Context) (context.Context, error) { return ctx, nil }})
-	go func() { _ = e.srv.Serve(e.lis) }()
-	conn, err := grpc.NewClient("passthrough:///c18",
-		grpc.WithContextDialer(func(ctx context.Context, _ string) (net.Conn, error) { return e.lis.DialContext(ctx) }),
-		grpc.WithTransportCredentials(insecure.NewCredentials()))
+	pb.RegisterKVServer(e.srv, &regattaserver.KVServer{Storage: e.kv})
+	go func() { _ = e.srv.Serve() }()
+	conn, err := e.dial()
 	if err != nil {
 		return nil, err
 	}
@@ -688,11 +689,17 @@ func newGrpcEnv() (*grpcEnv, error) {
 	return e, nil
 }
 
+func (e *grpcEnv) dial() (*grpc.ClientConn, error) {
+	return grpc.NewClient("passthrough:///c18",
+		grpc.WithContextDialer(func(ctx context.Context, _ string) (net.Conn, error) { return e.lis.DialContext(ctx) }),
+		grpc.WithTransportCredentials(insecure.NewCredentials()))
+}
+
 func (e *grpcEnv) close() {
 	if e.conn != nil {
 		e.conn.Close()
 	}
-	e.srv.Stop()
+	e.srv.Server.Stop()
 	e.lis.Close()
 }
 
